@@ -115,6 +115,9 @@ def getDRows (n : Nat) (d e : Nat → α) : Nat → Except Err (List (Array α))
 /-- `getD()`: the `n` rows, or `ub` -/
 def getD (n : Nat) (d e : Nat → α) : Except Err (List (Array α)) := getDRows n d e n
 
+/-- `D(i, j)` of a result of `getD` (no default value: `none` outside the matrix) -/
+def entry? (rows : List (Array α)) (i j : Nat) : Option α := (rows[i]?).bind (·[j]?)
+
 /-- what the documentation of `getD` promises, entry by entry -/
 def blockEntry (d e : Nat → α) (i j : Nat) : α :=
   if j = i then d i
